@@ -339,7 +339,7 @@ Section BatchR.
         repeat match goal with
         | |- context [chk_fit_dims P ?u ?X] =>
             let E := fresh "E" in destruct (chk_fit_dims P u X) as [[]|] eqn:E; simpl; [apply fit_dims_attr in E|]
-        end; brk; auto; intros r0 Hr0; inversion Hr0; subst; auto.
+        end; intros r0 Hr0; brk_all; auto.
     - unfold ref_attr, eff_ref, Batch.step in *.
       destruct (c_cls Prm c) eqn:Ecl; simpl in *; try congruence; brk; auto.
     - unfold ref_attr, eff_ref, Batch.step in *.
@@ -438,7 +438,7 @@ Section BatchR.
   Proof.
     intros c s X HX. split; [apply compare_pure|].
     unfold Batch.step. destruct (c_cls Prm c) eqn:Ecl; simpl; unfold Batch.batch_cmp; simpl;
-      unfold chk_fitted, chk_cmp_dims, chk_samples; rewrite ?HX; simpl; brk; auto.
+      unfold chk_fitted, chk_cmp_dims, chk_samples; rewrite ?HX; simpl; brk_all; auto.
   Qed.
 
   (* anything that is not an ndarray, for every class whose X_ref setter is the inherited one *)
